@@ -306,6 +306,8 @@ Proof.
   { unfold ll. rewrite HmL. destruct (Z.eq_dec (gi * gv g + r) 0) as [E | E].
     - left. split; [assumption|]. rewrite E, Z.sub_0_r. apply Z_mod_same_full.
     - right. split; [lia|]. apply Z.mod_small. lia. }
+  assert (Hll0 : 0 <= ll < gL g) by (apply Z.mod_pos_bound; lia).
+  clearbody ll.
   destruct (n <? ll) eqn:E3.
   - (* the skip stays inside the current iMCU row *)
     destruct Hll as [(A & B) | (Hoff0 & Hlleq)]; [lia|].
@@ -385,6 +387,7 @@ Proof.
     assert (HlaF : (if a_pend a then n + (gL g - ll) else n - ll) = laE) by reflexivity.
     rewrite HlaF.
     set (e1 := a_exact a && (ll =? 0)).
+    try clear HI; try clear Hbt; try clear Hbf; try clear Hsep; try clear Hrg; try clear Hll; try clear HmL; try clear HdL.
     destruct (Bool.bool_dec (gmerged g) true) as [Emg | Emg].
     + (* merged upsampler *)
       unfold reset_rtg. rewrite Emg. simp_st. rewrite Hform.
@@ -392,27 +395,28 @@ Proof.
       * rewrite Emg. discriminate.
       * intros Em. destruct (a_pend a) eqn:Ep; [rewrite (Hpm2 eq_refl) in Em; discriminate|].
         rewrite Em in Esp. cbn [andb] in Esp. destruct (Hm2 Em) as (A & _ & _).
-        destruct (Hrtg (or_intror ltac:(unfold merged2v in Em; rewrite Emg in Em; lia))) as (B & C).
+        assert (Hv2 : gv g = 2).
+        { pose proof Em as Em'. unfold merged2v in Em'. apply andb_true_iff in Em'. destruct Em' as (_ & Ev). lia. }
+        destruct (Hrtg (or_intror Hv2)) as (B & C).
         unfold scanE in Hs1. splits.
         -- rewrite A. exact Esp.
         -- lia.
         -- intros He. unfold e1 in He. apply andb_true_iff in He. destruct He as (He1 & He2). rewrite (C He1). lia.
-      * eexists. split; [reflexivity|]. split; [|lia].
+      * eexists. split; [f_equal; first [reflexivity | lia]|]. split; [|lia].
         unfold Rel. cbn [a_s a_pend a_exact]. fold s. rewrite HsumE in Hsc4, HI4. splits; try lia. intros _.
         destruct (a_pend a) eqn:Ep.
         -- rewrite (Hpm2 eq_refl) in *. cbn [negb andb] in *. rewrite Z.sub_0_r. exact HI4.
         -- unfold laE in HI4. rewrite Z.add_0_r.
            destruct (merged2v g) eqn:Em; [|exact HI4].
            unfold e1 in HI4. rewrite andb_sum0 in HI4; [exact HI4 | lia |].
-           pose proof (Z.mod_pos_bound (n - ll) (gL g) HLpos). pose proof (Z.mul_div_le (n - ll) (gL g) HLpos).
-           pose proof (Z.div_mod (n - ll) (gL g)). lia.
+           pose proof (Z.mod_le (n - ll) (gL g) ltac:(lia) HLpos). lia.
     + (* separate upsampler: next_row_out and rows_to_go are reset *)
       apply not_true_is_false in Emg. unfold reset_rtg, set_rtg_now. rewrite Emg. simp_st. rewrite Hform.
       assert (Em : merged2v g = false) by (unfold merged2v; rewrite Emg; reflexivity).
       destruct (cross_tail br (gv g) (gH g - R1 * gL g) cb sf sp R1 laE e1 HR1pos HlaE ltac:(lia)) as (Hsc4 & HI4).
       * intros _. split; reflexivity.
       * rewrite Em. discriminate.
-      * eexists. split; [reflexivity|]. split; [|lia].
+      * eexists. split; [f_equal; first [reflexivity | lia]|]. split; [|lia].
         unfold Rel. cbn [a_s a_pend a_exact]. fold s. rewrite HsumE in Hsc4, HI4. splits; try lia. intros _.
         rewrite Em in *. cbn [negb andb] in *.
         destruct (a_pend a) eqn:Ep; unfold laE in HI4; [rewrite Z.sub_0_r | rewrite Z.add_0_r]; exact HI4.
